@@ -175,7 +175,7 @@ func reset() {
 func runWant(sess *exec.Session, o *outcome, label, want string, f *bigslice.FuncValue, args ...interface{}) *exec.Result {
 	res, err := sess.Run(context.Background(), f, args...)
 	if err != nil {
-		vsched.Fail("%s: Run failed: %v", label, firstLine(err.Error()))
+		vsched.Fail("%s: Run failed: %v", label, strings.ReplaceAll(err.Error(), "\n", " // "))
 		o.add("%s=err", label)
 		return nil
 	}
@@ -245,6 +245,9 @@ type scen struct {
 	p     int
 	body  func(sess *exec.Session, o *outcome)
 }
+
+// isDist: scenarios named dist/... run on a one-machine verifsystem cluster (machine boot in a prelude).
+func (s scen) isDist() bool { return strings.HasPrefix(s.name, "dist/") }
 
 func scenarios() []scen {
 	var out []scen
@@ -330,6 +333,48 @@ func scenarios() []scen {
 			}
 		}},
 	)
+	// Distributed executor under the scheduler: one verifsystem machine; the first run
+	// (machine boot, compilation) is a non-explored prelude, then the concurrent part.
+	out = append(out,
+		scen{"dist/rundiscard", []string{"C19", "C12"}, 1, func(sess *exec.Session, o *outcome) {
+			var r *exec.Result
+			vsched.Prelude(func() { r = runWant(sess, o, "R", srcRows(0), fSrc, 0, 1) })
+			par(func() { runWant(sess, o, "G", mapRows(0, 10), fMapOf, r, 10) },
+				func() { r.Discard(context.Background()); o.add("D") })
+		}},
+		scen{"dist/discardrun", []string{"C19", "C12"}, 1, func(sess *exec.Session, o *outcome) {
+			// same as dist/rundiscard with the discarding thread first in the default order
+			var r *exec.Result
+			vsched.Prelude(func() { r = runWant(sess, o, "R", srcRows(0), fSrc, 0, 1) })
+			par(func() { r.Discard(context.Background()); o.add("D") },
+				func() { runWant(sess, o, "G", mapRows(0, 10), fMapOf, r, 10) })
+			// a later Func must still be able to use (recompute) the result
+			runWant(sess, o, "H", mapRows(0, 100), fMapOf, r, 100)
+		}},
+		scen{"dist/mix3", []string{"C19", "C12"}, 1, func(sess *exec.Session, o *outcome) {
+			var r *exec.Result
+			vsched.Prelude(func() { r = runWant(sess, o, "R", srcRows(0), fSrc, 0, 1) })
+			par(func() { r.Discard(context.Background()); o.add("D") },
+				func() { scanPrefix(o, "S", r, srcRows(0)) },
+				func() { runWant(sess, o, "G", mapRows(0, 10), fMapOf, r, 10) })
+		}},
+		scen{"dist/reuse2", []string{"C19", "C12"}, 1, func(sess *exec.Session, o *outcome) {
+			var r *exec.Result
+			vsched.Prelude(func() { r = runWant(sess, o, "R", srcRows(0), fSrc, 0, 1) })
+			par(func() { runWant(sess, o, "G", mapRows(0, 10), fMapOf, r, 10) },
+				func() { runWant(sess, o, "H", mapRows(0, 100), fMapOf, r, 100) })
+			if seen(0) != len(srcKeys) {
+				vsched.Fail("shared source task processed %d rows, want %d (executed once, no loss)", seen(0), len(srcKeys))
+			}
+		}},
+		scen{"dist/scandiscard", []string{"C12"}, 1, func(sess *exec.Session, o *outcome) {
+			var r *exec.Result
+			vsched.Prelude(func() { r = runWant(sess, o, "R", srcRows(0), fSrc, 0, 1) })
+			par(func() { scanPrefix(o, "S", r, srcRows(0)) },
+				func() { r.Discard(context.Background()); o.add("D") })
+			runWant(sess, o, "G", mapRows(0, 10), fMapOf, r, 10)
+		}},
+	)
 	// C14(d): local-mode parallelism limit and exclusivity
 	for _, p := range []int{1, 2} {
 		p := p
@@ -396,10 +441,21 @@ var fSlow1 = bigslice.Func(func(tag int, exclusive bool) bigslice.Slice {
 func mkScenario(s scen) *mc.Scenario {
 	var o *outcome
 	sc := &mc.Scenario{Name: s.name, Grace: 0}
+	if s.isDist() {
+		sc.Grace = 3 * time.Second
+	}
 	sc.Body = func() {
 		reset()
 		o = &outcome{}
-		sess := exec.Start(exec.Local, exec.Parallelism(s.p))
+		var sess *exec.Session
+		if s.isDist() {
+			sys := vsys.New(1)
+			sys.MaxMachines = 1
+			sys.Keepalive = [3]time.Duration{50 * time.Millisecond, time.Minute, 10 * time.Second}
+			sess = exec.Start(exec.Bigmachine(sys), exec.Parallelism(s.p))
+		} else {
+			sess = exec.Start(exec.Local, exec.Parallelism(s.p))
+		}
 		s.body(sess, o)
 	}
 	sc.Outcome = func() string {
@@ -433,6 +489,7 @@ func mkScenario(s scen) *mc.Scenario {
 var (
 	flagLayer    = flag.String("layer", "", "emit the S layer for another property (C12|C14) as LAYER json")
 	flagRacePass = flag.Int("racepass", 0, "internal (race flavour): run every scenario body N times free-running")
+	flagRaceOnly = flag.String("raceonly", "", "restrict -racepass to scenarios containing this substring")
 )
 
 // racePass runs the scenario bodies without the scheduler (the vsched API passes
@@ -441,16 +498,35 @@ var (
 func racePass(all []scen, n int) {
 	fails := map[string]int{}
 	runs := 0
-	for _, s := range all {
-		for i := 0; i < n; i++ {
-			reset()
-			o := &outcome{}
-			sess := exec.Start(exec.Local, exec.Parallelism(s.p))
-			s.body(sess, o)
-			sess.Shutdown()
-			runs++
-			for _, f := range vsched.PassFails() {
-				fails[s.name+": "+firstLine(f)]++
+	for _, cluster := range []bool{false, true} {
+		for _, s := range all {
+			if *flagRaceOnly != "" && !strings.Contains(s.name, *flagRaceOnly) {
+				continue
+			}
+			if s.isDist() {
+				continue // the cluster variants of the other scenarios cover this
+			}
+			for i := 0; i < n; i++ {
+				reset()
+				o := &outcome{}
+				var sess *exec.Session
+				name := s.name
+				if cluster {
+					if i >= (n+1)/2 {
+						break
+					}
+					sys := vsys.New(2)
+					sys.Keepalive = [3]time.Duration{50 * time.Millisecond, 30 * time.Second, 10 * time.Second}
+					sess = exec.Start(exec.Bigmachine(sys), exec.Parallelism(2*s.p))
+					name = "cluster/" + name
+				} else {
+					sess = exec.Start(exec.Local, exec.Parallelism(s.p))
+				}
+				s.body(sess, o)
+				runs++
+				for _, f := range vsched.PassFails() {
+					fails[name+": "+firstLine(f)]++
+				}
 			}
 		}
 	}
